@@ -1277,6 +1277,9 @@ class Parser:
             )
         else:
             operation_types = []
+        if (not directives) and (not operation_types):
+            tok = self.peek()
+            raise _unexpected_token(tok, tok.start, self._lexer._source)
         return _ast.SchemaExtension(
             directives=directives,
             operation_types=operation_types,
